@@ -13,11 +13,11 @@ package main
 import (
 	"bufio"
 	"flag"
-	"testing"
-	"testing/synctest"
 	"fmt"
 	"os"
 	"strings"
+	"testing"
+	"testing/synctest"
 	"time"
 )
 
